@@ -4,8 +4,11 @@ import (
 	"fmt"
 	"math/big"
 	"math/rand"
+	"os"
+	"runtime"
 	"strings"
 	"sync"
+	"time"
 	"verif/memkv"
 
 	"github.com/xuperchain/xupercore/bcs/ledger/xledger/state/utxo"
@@ -19,15 +22,15 @@ import (
 // point at the same moment (the narrow windows of the lock protocol need three or more
 // overlapping calls and many attempts, which the audited rounds cannot afford).
 type burstResult struct {
-	Bursts       int      `json:"bursts"`
-	SpendBursts  int      `json:"spend_bursts"`
-	KeyBursts    int      `json:"key_bursts"`
-	SelectBursts int      `json:"select_bursts"`
+	Bursts       int `json:"bursts"`
+	SpendBursts  int `json:"spend_bursts"`
+	KeyBursts    int `json:"key_bursts"`
+	SelectBursts int `json:"select_bursts"`
 	// WarmSelectBursts: selector bursts on warm caches with selections that fail and release
-	WarmSelectBursts int `json:"warm_select_bursts"`
-	Admitted     int      `json:"admitted"`
-	Refused      int      `json:"refused"`
-	Problems     []string `json:"problems"`
+	WarmSelectBursts int      `json:"warm_select_bursts"`
+	Admitted         int      `json:"admitted"`
+	Refused          int      `json:"refused"`
+	Problems         []string `json:"problems"`
 }
 
 func runBursts(seed int64, n int) (res burstResult) {
@@ -79,6 +82,7 @@ func runBursts(seed int64, n int) (res burstResult) {
 	splitID := setup[0].Txid
 	nextCoin := 0
 	burstNo := 0
+	hung := false
 	fire := func(fs []func() error) (ok int) {
 		// every second burst runs with storage-latency jitter (see memkv.SetJitter)
 		burstNo++
@@ -106,10 +110,23 @@ func runBursts(seed int64, n int) (res burstResult) {
 			}(f)
 		}
 		close(start)
-		wg.Wait()
+		done := make(chan struct{})
+		go func() { wg.Wait(); close(done) }()
+		select {
+		case <-done:
+		case <-time.After(120 * time.Second):
+			// a burst is a handful of calls that take milliseconds: two minutes without all of them
+			// returning means they wait for each other (the statement: no request deadlocks). The
+			// goroutine dump goes to the child's stderr, the parent keeps it with the witness.
+			buf := make([]byte, 1<<20)
+			buf = buf[:runtime.Stack(buf, true)]
+			os.Stderr.Write(buf)
+			problem("deadlock|burst-did-not-finish", "burst %d: %d concurrent requests did not all return within 120 s", burstNo, len(fs))
+			hung = true
+		}
 		return
 	}
-	for b := 0; b < n && len(res.Problems) == 0; b++ {
+	for b := 0; b < n && len(res.Problems) == 0 && !hung; b++ {
 		res.Bursts++
 		switch b % 5 {
 		case 4: // locking selectors on WARM caches, some of them asking for more than there is
@@ -229,6 +246,9 @@ func runBursts(seed int64, n int) (res burstResult) {
 			res.SelectBursts++
 			fire(fs)
 		}
+	}
+	if hung {
+		return
 	}
 	// conservation at quiescence: every token is in one place
 	sum := new(big.Int)
